@@ -139,8 +139,9 @@ Definition m_options : bytes := bs "OPTIONS".
 Definition merge_header_step (h : amap) (e : bytes * list bytes) : amap :=
   if (length (hget (fst e) h) =? 0)%nat then hset (fst e) (snd e) h else h.
 Definition merge_headers (ch rh : amap) : amap := fold_left merge_header_step ch rh.
+(* ... once per execution (df72f46): a retry attempt does not merge again *)
 Definition prep_header (c : client) (s : rstate) : rstate :=
-  set_headers s (merge_headers (c_headers c) (r_headers s)).
+  if (r_attempt s <=? 0)%Z then set_headers s (merge_headers (c_headers c) (r_headers s)) else s.
 
 (* parseRequestCookie (repaired: && ; pinned: ||) *)
 Definition prep_cookie (c : client) (s : rstate) : rstate :=
